@@ -230,7 +230,11 @@ async function invoke(f, nested, entrypointByObject) {
       const w = f.entryIndex != null ? nested[f.entryIndex] : null;
       rec.allowedVariables = w ? w.allowedVariables : null;
       const shapes = (job.refetchArgs || {})[f.name] || {};
-      for (const k of (w ? w.allowedVariables : [])) args[k] = (k in shapes) ? structuredClone(shapes[k]) : 'arg:' + k;
+      // the caller passes the refetched field's own arguments; the entrypoint's variables are the runtime's business
+      for (const k of (w ? w.allowedVariables : [])) {
+        if ((f.entrypointVariableNames || []).includes(k)) continue;
+        args[k] = (k in shapes) ? structuredClone(shapes[k]) : 'arg:' + k;
+      }
     } else {
       args = { ...(job.loadableArgs || {}) };
     }
@@ -372,7 +376,7 @@ for (const [key, spec] of Object.entries(job.entrypoints || {})) {
       rd.counters = counters;
       rd.refetchablesFound = found.length;
       if (job.invoke) {
-        for (const f of found) c.refetch.push(await invoke(f, nested, entrypointByObject));
+        for (const f of found) { f.entrypointVariableNames = spec.variableNames || []; c.refetch.push(await invoke(f, nested, entrypointByObject)); }
       }
     }
     res.nestedCount = nested.length;
